@@ -957,6 +957,8 @@ class Engine:
         base, proj = pl
         cell = fr[base]
         outp = []
+        off = 0
+        pending_slice = None
         for p in proj:
             if p[0] == 'deref':
                 tgt = self.walk(cell.v, outp, fr) if outp else cell.v
@@ -964,15 +966,27 @@ class Engine:
                     cell, outp = tgt.cell, list(tgt.proj)
                     continue
                 if isinstance(tgt, Slice):
-                    return tgt
+                    pending_slice = tgt
+                    cell, outp, off = tgt.ref.cell, list(tgt.ref.proj), tgt.start
+                    continue
                 if isinstance(tgt, Cell):
                     cell, outp = tgt, []
                     continue
                 raise Unsupported('ref through %r' % (tgt,))
             elif p[0] == 'index':
-                outp.append(('cindex', self.concretize(fr[p[1]].v), False))
+                k = self.concretize(fr[p[1]].v)
+                if pending_slice is not None and k >= pending_slice.length:
+                    raise PathEnd('panic', 'index out of bounds')
+                outp.append(('cindex', k + off, False))
+                off, pending_slice = 0, None
+            elif p[0] == 'cindex' and pending_slice is not None:
+                k = (pending_slice.length - p[1]) if p[2] else p[1]
+                outp.append(('cindex', k + off, False))
+                off, pending_slice = 0, None
             else:
                 outp.append(p)
+        if pending_slice is not None:
+            return pending_slice
         return Ref(cell, outp)
 
     def cast(self, v, ty, kind, fr=None):
